@@ -1,8 +1,177 @@
 import CM.Lib.Wire
-/-! Driver handler for C05 (stub: not built yet). -/
-namespace CM.Drv.C05
-open CM.Wire
+import CM.Model.Maintain
+/-!
+Driver handler for C05. One request = one history:
 
-def handle (_args _impl : List String) : String := bad
+  `trace <lifetime s> <number of names> <event>* => <observation>*`
+
+The model (`CM.Maintain.step` with C04's decision as the `due` predicate) replays the events
+and prints, per event, `result|issuer log delta|storage writes|issue locks taken|state`, exactly as the
+harness prints what it observed on the real code. The specification verdict judges the
+*implementation's* observations (sanity conditions that need no clock; the conditions
+that need certificate times are judged by the Go monitors).
+-/
+namespace CM.Drv.C05
+open CM.Wire CM.Maintain
+
+def parseMode (s : String) : Option Mode :=
+  if s = "ok" then some .ok else if s = "hard" then some .hard else if s = "soft" then some .soft
+  else if s = "hold" then some .hold else none
+
+def parseEv (tok : String) : Option Ev :=
+  match tok.splitOn ":" with
+  | ["adv", d] => d.toInt?.map .adv
+  | ["pass"] => some .pass
+  | ["pass2"] => some .pass2
+  | ["msync", k] => k.toNat?.map (fun k => .manage k false false)
+  | ["masync", k] => k.toNat?.map (fun k => .manage k true false)
+  | ["mfault", k] => k.toNat?.map (fun k => .manage k false true)
+  | ["mode", k, m] => match k.toNat?, parseMode m with
+    | some k, some m => some (.mode k m)
+    | _, _ => none
+  | ["rel", k, m] => match k.toNat?, parseMode m with
+    | some k, some m => some (.rel k m)
+    | _, _ => none
+  | ["oren", k] => k.toNat?.map .oren
+  | ["oobt", k] => k.toNat?.map .oobt
+  | ["del", k] => k.toNat?.map .del
+  | ["corrupt", k] => k.toNat?.map .corrupt
+  | ["rm", k] => k.toNat?.map .rm
+  | ["revoke", k] => k.toNat?.map .revoke
+  | ["od", b] => b.toNat?.map (fun b => .od (b == 1))
+  | ["unm", k, l] => match k.toNat?, l.toInt? with
+    | some k, some l => some (.unm k l)
+    | _, _ => none
+  | _ => none
+
+def showOut : Out → String
+  | .dash => "-" | .ok => "ok" | .err => "err" | .busy => "busy" | .skip => "skip"
+  | .none => "none" | .done => "done" | .noop => "noop" | .issued => "issued"
+
+def showId (i : CertId) : String := toString i.name ++ "_" ++ toString i.ver
+
+def showRes : IssueRes → String
+  | .ok v => "v" ++ toString v | .fail => "f" | .begun => "b"
+
+def joinOr (sep : String) (l : List String) : String := if l.isEmpty then "-" else sep.intercalate l
+
+/-- stable insertion sort -/
+def insertBy {α : Type} (lt : α → α → Bool) (x : α) : List α → List α
+  | [] => [x]
+  | y :: ys => if lt x y then x :: y :: ys else y :: insertBy lt x ys
+
+def sortBy {α : Type} (lt : α → α → Bool) (l : List α) : List α :=
+  l.foldl (fun acc x => insertBy lt x acc) []
+
+def runs : List String → List (String × Nat)
+  | [] => []
+  | x :: xs =>
+    match runs xs with
+    | (y, n) :: r => if x = y then (y, n + 1) :: r else (x, 1) :: (y, n) :: r
+    | [] => [(x, 1)]
+
+def showLog (delta : List LogEntry) : String :=
+  let sorted := sortBy (fun (a b : LogEntry) => a.inst < b.inst || (a.inst == b.inst && a.subj < b.subj)) delta
+  let toks := sorted.map (fun e => toString e.inst ++ "." ++ toString e.subj ++ "." ++ showRes e.res)
+  joinOr "," ((runs toks).map (fun p => if p.2 > 1 then p.1 ++ "*" ++ toString p.2 else p.1))
+
+def showWrites (n : Nat) (delta : List LogEntry) : String :=
+  joinOr "," ((List.range n).filterMap (fun k =>
+    let c := (delta.filter (fun e => e.subj == k && (match e.res with | .ok _ => true | _ => false))).length
+    if c = 0 then none else some (toString k ++ "x" ++ toString (3 * c))))
+
+def showLocks (n : Nat) (delta : List Name) : String :=
+  joinOr "," ((List.range n).filterMap (fun k =>
+    let c := (delta.filter (· == k)).length
+    if c = 0 then none else some (toString k ++ "x" ++ toString c)))
+
+def showStored : Stored → String
+  | .none => "-" | .corrupt => "x" | .ok c => showId c.id
+
+def showState (n : Nat) (s : State) : String :=
+  let cs := (List.range n).map (fun k =>
+    let row := (s.cache.index k).map (fun i => if s.cache.has i then showId i else "?")
+    let sv := match served s.now s.cache k with
+      | some i => showId i
+      | none => "-"
+    joinOr "+" row ++ "~" ++ sv ++ "~" ++ showStored (s.store k))
+  let jn := sortBy (fun (a b : Nat) => a < b) (s.jobs.filterMap (fun j => j.jname))
+  let ks := (List.range n).filter (fun k => lockHeld s k)
+  "T=" ++ toString s.now ++ ";C=" ++ ",".intercalate cs ++ ";J=" ++ joinOr "." (jn.map toString) ++ "/" ++
+    toString s.jobs.length ++ "/0;K=" ++ joinOr "." (ks.map toString)
+
+def replay (n : Nat) : State → List Ev → List String → List String
+  | _, [], acc => acc.reverse
+  | s, e :: es, acc =>
+    let r := step dueC04 s e
+    let delta := r.1.log.drop s.log.length
+    let tok := showOut r.2 ++ "|" ++ showLog delta ++ "|" ++ showWrites n delta ++ "|" ++
+      showLocks n (r.1.locks.drop s.locks.length) ++ "|" ++ showState n r.1
+    replay n r.1 es (tok :: acc)
+
+/-! executable sanity specification on the implementation's observations -/
+
+def field (pre : String) (parts : List String) : Option String :=
+  (parts.find? (fun p => p.startsWith pre)).map (fun p => (p.drop pre.length).toString)
+
+def specStep (tok : String) : Option String :=
+  match tok.splitOn "|" with
+  | [_, log, _, _, st] =>
+    let lt := if log = "-" then [] else log.splitOn ","
+    -- (inst, name) pairs with a successful issuance, counted with multiplicity
+    let oks := lt.filterMap (fun t => match t.splitOn "." with
+      | [i, k, r] => if r.startsWith "v" then some (i ++ "." ++ k, r) else none
+      | _ => none)
+    let dupOk := oks.any (fun p => (oks.filter (fun q => q.1 = p.1)).length > 1 || (p.2.splitOn "*").length > 1)
+    let parts := st.splitOn ";"
+    let cs := match field "C=" parts with
+      | some c => c.splitOn ","
+      | none => []
+    let badServed := cs.any (fun c => match c.splitOn "~" with
+      | [row, sv, _] => sv ≠ "-" && !((row.splitOn "+").contains sv)
+      | _ => true)
+    -- an issuance for name k leaves exactly that version in storage
+    let badStored := oks.any (fun p => match p.1.splitOn ".", cs with
+      | [_, k], cs => match k.toNat? with
+        | some k => match (cs.getD k "").splitOn "~" with
+          | [_, _, sd] => sd ≠ k.repr ++ "_" ++ ((p.2.drop 1).toString.splitOn "*").headD ""
+          | _ => true
+        | none => true
+      | _, _ => true)
+    let jobsBad := match field "J=" parts, field "K=" parts with
+      | some j, some k => match j.splitOn "/" with
+        | [names, act, q] =>
+          let ns := if names = "-" then [] else names.splitOn "."
+          let ks := if k = "-" then [] else k.splitOn "."
+          ns.any (fun n => !ks.contains n) || q ≠ "0" || (act.toNat?.getD 0) < ns.length ||
+            ns.any (fun n => (ns.filter (· = n)).length > 1)
+        | _ => true
+      | _, _ => true
+    if dupOk then some "issued-twice-in-one-step"
+    else if badServed then some "served-not-in-index-row"
+    else if badStored then some "issued-version-not-in-storage"
+    else if jobsBad then some "job-without-lock-or-duplicate"
+    else none
+  | _ => some "malformed-observation"
+
+def handle (args impl : List String) : String :=
+  match args with
+  | "trace" :: life :: n :: evs =>
+    match life.toInt?, n.toNat?, evs.mapM parseEv with
+    | some life, some n, some evs =>
+      let out := replay n (init life) evs []
+      let spec := match impl.findSome? specStep with
+        | some r => "bad:" ++ r
+        | none => "ok"
+      let final := run dueC04 (init life) evs
+      let cnt (p : LogEntry → Bool) := (final.log.filter p).length
+      let tag := "n" ++ toString n ++ ":e" ++ toString evs.length ++
+        ":i" ++ toString (cnt (fun e => e.inst == 0 && (match e.res with | .ok _ => true | _ => false))) ++
+        ":o" ++ toString (cnt (fun e => e.inst == 1)) ++
+        ":f" ++ toString (cnt (fun e => e.res == .fail)) ++
+        ":h" ++ toString (cnt (fun e => e.res == .begun))
+      reply (" ".intercalate out) spec tag
+    | _, _, _ => bad
+  | _ => bad
 
 end CM.Drv.C05
